@@ -33,7 +33,10 @@ let absent file =
     let w = split_ws lines.(!i) in
     (match w with
      | "OP" :: _ :: "promote" :: _ | "OP" :: _ :: "removetransports" :: _ | "OP" :: _ :: "appcmd" :: _ | "OP" :: _ :: "reconnect" :: _ -> skip := true   (* role changes / in-frame application commands: outside this replay *)
-     | [ "OP"; p; "despawn"; h ] -> Hashtbl.replace pending_desp (int_of_string p, h) true
+     | [ "OP"; p; "despawn"; h ] ->
+         (* a despawn of an entity the peer does not hold is a no-op of the harness *)
+         let pi = int_of_string p in
+         if List.mem h (try Hashtbl.find prev_u2e pi with Not_found -> []) then Hashtbl.replace pending_desp (pi, h) true
      | [ "FRAME"; p ] ->
          let pi = int_of_string p in
          let pn = n_of_int pi in
